@@ -1,6 +1,10 @@
 """C06 — result depends only on hyper-parameters and the ordered stream.
 Oracle (implementation alone): fit == any partial_fit partition == re-fit of a
-used estimator == the same with read-only operations interleaved.  Tie: the
+used estimator == the same with read-only operations interleaved (predict,
+get_params, copies, pickles; the accessors get_cluster_centers / get_bounding_boxes /
+predict_regression / ... on the estimator and on every nested module).  A used
+DeepARTMAP is also re-fitted in the other mode (fit(X) <-> fit(X, y)) and after
+`modules` was replaced by attribute assignment.  Tie: the
 Lean folds reproduce fit / partial_fit histories end-to-end (exact kernels)."""
 from __future__ import annotations
 
@@ -10,10 +14,11 @@ import pickle
 import numpy as np
 
 from .. import gen, families
-from ..impl import quiet, exc_enum, eq_snap
+from ..impl import quiet, exc_enum, eq_snap, make as _make
 from . import e2e
 
-RULE = ("cases = (family, hyper-parameters, stream, partition / earlier history / read-only interleaving); all "
+RULE = ("cases = (family, hyper-parameters, stream, partition / earlier history (DeepARTMAP: in either mode, modules re-assigned) "
+        "/ read-only interleaving incl. accessors); all "
         "compositions for n <= 5, random ones beyond; non-trivial when the stream has >= 2 samples and the trained "
         "model has >= 2 categories or a non-trivial map; distinct by hash of (family spec, stream, partition)")
 
@@ -33,6 +38,244 @@ def read_only(fam, est, rows, r):
             copy.deepcopy(est)
         else:
             pickle.loads(pickle.dumps(est))
+
+
+# ---------------------------------------------------------------- read-only accessors (C06: "interleaving read-only
+# operations anywhere in the history changes nothing")
+
+
+def parts_of(est):
+    """the estimator and every nested estimator it is built from (each object once)"""
+    seen, out, todo = set(), [], [est]
+    while todo:
+        o = todo.pop(0)
+        if o is None or id(o) in seen:
+            continue
+        seen.add(id(o))
+        out.append(o)
+        d = getattr(o, "__dict__", {})
+        for k in ("module_a", "module_b", "base_module", "fusion_art"):
+            if k in d:
+                todo.append(d[k])
+        for k in ("modules", "layers"):
+            if isinstance(d.get(k), (list, tuple)):
+                todo.extend(d[k])
+    return out
+
+
+def identity_bounds(est):
+    """documented workflow: data goes through prepare_data once, which fixes the column bounds that restore_data (hence
+    get_cluster_centers / predict_regression of the Fuzzy-based modules) needs; bounds [[0..],[1..]] = the identity map,
+    so the complement-coded streams of the generators stay what they are.  Returns the number of modules touched."""
+    k = 0
+    for o in parts_of(est):
+        if type(o).__name__ in ("FuzzyART", "iCVIFuzzyART") and getattr(o, "d_min_", None) is None:
+            w = getattr(o, "dim_", None)
+            if w is None and len(getattr(o, "W", [])):
+                w = len(o.W[0])
+            if not w:
+                continue
+            d = int(w) // 2
+            with quiet():
+                o.prepare_data(np.array([[0.0] * d, [1.0] * d]))
+            k += 1
+    return k
+
+
+def accessors(fam, est, rows, r, cov):
+    """the read-only accessors of the public API, on the estimator and on every nested module: cluster centres, bounding
+    boxes, regression-style predictions, deep labels.  An accessor that raises is not C06's business (noted in the
+    coverage); what it must not do is move the model."""
+    n = len(rows)
+    q = rows.sl(0, max(1, min(n, r.randint(1, 3))))
+    called = 0
+
+    def call(tag, f):
+        nonlocal called
+        try:
+            with quiet():
+                f()
+            cov.hit(f"accessor:{tag}")
+            called += 1
+        except Exception as e:
+            cov.hit(f"accessor-raised:{tag}:{exc_enum(e)}")
+    for o in parts_of(est):
+        cn = type(o).__name__
+        if (hasattr(o, "get_cluster_centers") and len(getattr(o, "W", []))) or cn in ("DualVigilanceART", "TopoART", "CVIART"):
+            call(f"get_cluster_centers:{cn}", o.get_cluster_centers)
+        if hasattr(o, "get_bounding_boxes") and len(getattr(o, "W", [])):
+            call(f"get_bounding_boxes:{cn}", o.get_bounding_boxes)
+        if hasattr(o, "get_2d_ellipsoids") and len(getattr(o, "W", [])):
+            call(f"get_2d_ellipsoids:{cn}", o.get_2d_ellipsoids)
+        if cn == "FusionART" and len(getattr(o, "W", [])):
+            for c in range(o.n):
+                call("get_channel_centers:FusionART", lambda c=c: o.get_channel_centers(c))
+    cn = type(est).__name__
+    if cn == "ARTMAP":
+        call("predict_regression:ARTMAP", lambda: est.predict_regression(q.arrs["X"]))
+        call("predict_ab:ARTMAP", lambda: est.predict_ab(q.arrs["X"]))
+    elif cn == "SimpleARTMAP":
+        call("predict_ab:SimpleARTMAP", lambda: est.predict_ab(q.arrs["X"]))
+    elif cn == "FusionART":
+        call("predict_regression:FusionART", lambda: est.predict_regression(q.arrs["X"]))
+        if est.n >= 2:
+            call("predict_regression:FusionART:2-targets", lambda: est.predict_regression(q.arrs["X"], target_channels=[0, -1]))
+    elif cn == "DeepARTMAP":
+        call("labels_deep_:DeepARTMAP", lambda: est.labels_deep_)
+        call("map_deep:DeepARTMAP", lambda: est.map_deep(-1, 0))
+    elif cn in ("FALCON", "TD_FALCON"):
+        call(f"get_rewards:{cn}", lambda: est.get_rewards(q.arrs["S"], q.arrs["A"]))
+        call(f"get_actions_and_rewards:{cn}", lambda: est.get_actions_and_rewards(q.arrs["S"][0]))
+    elif cn == "SMART":
+        call("predict:SMART", lambda: est.predict(q.arrs["X"]))
+    return called
+
+
+BOUNDS = {"d_min_", "d_max_"}
+
+
+def accessors_interleaved(ctx, i, name, fam, rows, parts, desc, ref_snap):
+    """history = partial_fit batches (or one fit) with the accessors called after every batch.  Oracle, on the
+    implementation alone: (1) the model right after the accessor calls is the model right before them; (2) the model at
+    the end of the history is the model of the same history without the accessor calls."""
+    cov = ctx.cov
+    r = gen.rng_for(ctx.seed, "C06-acc", i)
+
+    def history(with_accessors):
+        est = fam.make()
+        steps = [(j, j + p) for j, p in zip(np.cumsum([0] + parts[:-1]).tolist(), parts)] if fam.has_pfit else [(0, len(rows))]
+        for (a, b) in steps:
+            (fam.pfit if fam.has_pfit else fam.fit)(est, rows.sl(a, b))
+            identity_bounds(est)
+            if not with_accessors:
+                continue
+            before = fam.snap(est)
+            if accessors(fam, est, rows, r, cov):
+                cov.hit("accessors-interleaved")
+            if not eq_snap(before, fam.snap(est)):
+                return est, (a, b)
+        return est, None
+    try:
+        est, moved = history(True)
+    except Exception as e:
+        cov.hit(f"accessors-history-raised:{name}:{exc_enum(e)}")
+        return
+    if moved is not None:
+        ctx.issue("violation", f"{name}:accessor-moves-model",
+                  f"after training on rows {moved[0]}:{moved[1]} the read-only accessors (get_cluster_centers / get_bounding_boxes / "
+                  "predict_regression / ... on the estimator and its modules) changed weights, labels or maps",
+                  dict(desc, partition=parts, after_rows=list(moved)))
+        return
+    got = families.strip(fam.snap(est), BOUNDS)
+    if not eq_snap(got, families.strip(ref_snap, BOUNDS)):
+        # only meaningful where partition == fit holds; compare with the same history without the accessors
+        try:
+            twin, _ = history(False)
+        except Exception:
+            return
+        if not eq_snap(fam.snap(est), fam.snap(twin)):
+            ctx.issue("violation", f"{name}:accessors-change-later-training",
+                      "the same partial_fit history with read-only accessors called between the batches ends in another model",
+                      dict(desc, partition=parts))
+    cov.hit("accessors-history-compared")
+
+
+def deep_refits(ctx):
+    """DeepARTMAP accepts two call forms, fit(X, y) (supervised) and fit(X) (unsupervised), and its only constructor
+    argument `modules` is a public attribute.  "Calling fit on a previously used estimator yields exactly what a fresh
+    estimator with the same hyper-parameters yields" quantifies over all earlier histories: the earlier history may have
+    been in either mode (fit or partial_fit batches, read-only operations in between), and the modules may have been
+    replaced by attribute assignment before the re-fit (then `fresh` = a new DeepARTMAP over modules with those
+    hyper-parameters)."""
+    cov = ctx.cov
+    nmax = ctx.scale(14, 40)
+
+    def observe(fam, est, rows):
+        s = fam.snap(est)
+        s["is_supervised"] = est.is_supervised
+        s["layer_types"] = [type(L).__name__ for L in est.layers]
+        try:
+            s["predict"] = [np.asarray(p).copy() for p in fam.predict(est, rows)]
+        except Exception as e:          # predict failures are C04/C08 business, but they must be the same on both sides
+            s["predict"] = "raised:" + exc_enum(e)
+        return s
+    for i in range(ctx.scale(72, 900)):
+        r = gen.rng_for(ctx.seed, "C06-deep", i)
+        try:
+            fam0, rows = families.build(r, "DeepARTMAP-unsup", r.randint(2, nmax))      # >= 2 modules: both modes are valid
+        except Exception as e:
+            ctx.issue("diff", "harness:build:DeepARTMAP-refit", repr(e))
+            continue
+        n, k = len(rows), len(fam0.spec["modules"])
+        sup_pre, sup_then = [(False, True), (True, False), (True, True), (False, False)][i % 4]
+        assign = (i // 4) % 3 == 2 or sup_pre == sup_then        # same-mode re-fits are in run(); here only with new modules
+        fam_pre = families.Deep(fam0.spec, fam0.mode, fam0.eps, sup_pre)
+        # ---- what is fitted at the end, and the fresh reference
+        if assign:
+            k2 = r.randint(1 if sup_then else 2, k)
+            sel = r.sample(range(k), k2)
+            mods2 = [families._elem(r, *fam0.groups[j]) for j in sel]
+            spec2 = {"cls": "DeepARTMAP", "modules": mods2}
+            rows_then = families.Rows(Xs=[rows.arrs["Xs"][j] for j in sel], y=rows.arrs["y"])
+        else:
+            sel, spec2, rows_then = list(range(k)), fam0.spec, rows
+        fam_then = families.Deep(spec2, fam0.mode, fam0.eps, sup_then)
+        idx = list(range(n))
+        r.shuffle(idx)
+        pre = rows.take(np.array(idx[: max(1, n // 2)]))
+        how = r.choice(["fit", "partial_fit", "partial_fit+read-only", "fit+fit"])
+        desc = dict(family="DeepARTMAP", spec=fam0.spec, mode=fam0.mode, eps=fam0.eps, rows=rows.tolist(), pre=pre.tolist(),
+                    history=dict(supervised=sup_pre, how=how), then=dict(supervised=sup_then, modules_assigned=spec2 if assign else None,
+                                                                       channels=sel))
+        try:
+            fresh = fam_then.make()
+            fam_then.fit(fresh, rows_then)
+            want = observe(fam_then, fresh, rows_then)
+        except Exception as e:
+            cov.hit(f"deep-refit:ref-raised:{exc_enum(e)}")
+            continue
+        tag = f"{'sup' if sup_pre else 'unsup'}->{'sup' if sup_then else 'unsup'}" + (":modules-assigned" if assign else "")
+        cov.case(("deep-refit", fam0.spec, desc["rows"], tag, how, sel, spec2 if assign else None), n >= 2)
+        # ---- the used estimator
+        est = fam_pre.make()
+        try:
+            if how.startswith("partial_fit"):
+                a = max(1, len(pre) // 2)
+                fam_pre.pfit(est, pre.sl(0, a))
+                if how.endswith("read-only"):
+                    identity_bounds(est)
+                    accessors(fam_pre, est, pre, r, cov)
+                    read_only(fam_pre, est, pre, r)
+                if a < len(pre):
+                    fam_pre.pfit(est, pre.sl(a, len(pre)))
+            else:
+                fam_pre.fit(est, pre)
+                if how == "fit+fit":
+                    fam_pre.fit(est, rows)
+        except Exception as e:
+            cov.hit(f"deep-refit:history-raised:{exc_enum(e)}")
+            continue
+        try:
+            if assign:
+                est.modules = [_make(ms) for ms in spec2["modules"]]
+            fam_then.fit(est, rows_then)
+            got = observe(fam_then, est, rows_then)
+        except Exception as e:
+            ctx.issue("violation", f"DeepARTMAP.refit:{tag}:{exc_enum(e)}",
+                      f"fit on a DeepARTMAP with an earlier {'supervised' if sup_pre else 'unsupervised'} history ({how})"
+                      f"{' whose modules were then replaced by assignment' if assign else ''} raised {e!r} where a fresh estimator succeeds", desc)
+            continue
+        # the column bounds set for the accessors in the earlier history are preprocessing state, not the trained model
+        got, want = families.strip(got, BOUNDS), families.strip(want, BOUNDS)
+        if not eq_snap(got, want):
+            bad = sorted(kk for kk in want if not eq_snap(got.get(kk), want[kk]))
+            ctx.issue("violation", f"DeepARTMAP:refit!=fresh:{tag}",
+                      f"fit({'X, y' if sup_then else 'X'}) on a DeepARTMAP with an earlier {'supervised' if sup_pre else 'unsupervised'} history "
+                      f"({how}){' whose modules were then replaced by assignment' if assign else ''} differs from the same fit on a fresh "
+                      f"estimator in {bad} (is_supervised {got.get('is_supervised')} vs {want.get('is_supervised')}, layers "
+                      f"{got.get('layer_types')} vs {want.get('layer_types')})", desc)
+        cov.hit(f"deep-refit:{tag}")
+        cov.hit(f"deep-refit:history:{how}")
 
 
 def prepare(ctx):
@@ -196,10 +439,24 @@ def run(ctx):
             cov.hit("read-only-interleaved")
         except Exception as e:
             cov.hit(f"readonly-raised:{name}:{exc_enum(e)}")
+        # ---- (d) read-only accessors (cluster centres, bounding boxes, regression predictions) interleaved
+        accessors_interleaved(ctx, i, name, fam, rows, parts, desc, ref_snap)
+    deep_refits(ctx)
     long_streams(ctx)
     # ---- tie: Lean folds vs implementation (fit, partial_fit partitions, re-fit)
     e2e.base_histories(ctx, "C06", ctx.scale(150, 3000), ctx.scale(20, 80), fields=("labels", "W"))
     e2e.smap_histories(ctx, "C06", ctx.scale(120, 2500), ctx.scale(16, 60))
+
+
+def _n_categories(est) -> int:
+    best = 0
+    for o in [est] + [getattr(est, a) for a in ("module_a", "base_module", "fusion_art") if a in getattr(est, "__dict__", {})] \
+            + list(getattr(est, "__dict__", {}).get("modules", []) or []):
+        try:
+            best = max(best, len(o.W))
+        except Exception:
+            pass
+    return best
 
 
 def long_streams(ctx):
@@ -219,8 +476,15 @@ def long_streams(ctx):
         desc = dict(fam.describe(), n=n, row_index=idx.tolist())
         try:
             ref = fam.make()
+            many = False
             for j in range(n):
                 fam.pfit(ref, rows.sl(j, j + 1))
+                if j == 63 and _n_categories(ref) > 24:
+                    many = True           # (a model that keeps creating categories makes a long stream quadratic: not this section's subject)
+                    break
+            if many:
+                cov.hit("long-stream:skipped:model-keeps-growing")
+                continue
             ref_snap = fam.snap(ref)
         except Exception as e:
             cov.hit(f"long:ref-raised:{name}:{exc_enum(e)}")
